@@ -111,7 +111,9 @@ func must(err error) {
 // RunTLC runs TLC in a fresh work directory and removes it afterwards.
 func RunTLC(o TLCOpts) TLCResult {
 	work := newWorkDir(o.Module)
-	defer os.RemoveAll(work)
+	if os.Getenv("VERIF_KEEP_WORK") == "" { // development aid: keep the TLC work directories
+		defer os.RemoveAll(work)
+	}
 	return RunTLCIn(work, o)
 }
 
@@ -317,23 +319,23 @@ func tlcJudge(module, cfg, file string, recs []interface{}) ([]badRec, TLCResult
 	if k < 2 {
 		return tlcJudgeOne(module, cfg, file, recs)
 	}
-	size := (len(recs) + k - 1) / k
+	// records are dealt round-robin: expensive records (large documents) tend to be neighbours
 	bads := make([][]badRec, k)
 	results := make([]TLCResult, k)
 	var wg sync.WaitGroup
 	for i := 0; i < k; i++ {
-		lo, hi := i*size, (i+1)*size
-		if hi > len(recs) {
-			hi = len(recs)
+		var part []interface{}
+		for j := i; j < len(recs); j += k {
+			part = append(part, recs[j])
 		}
 		wg.Add(1)
-		go func(i, lo, hi int) {
+		go func(i int, part []interface{}) {
 			defer wg.Done()
-			bads[i], results[i] = tlcJudgeOne(module, cfg, file, recs[lo:hi])
+			bads[i], results[i] = tlcJudgeOne(module, cfg, file, part)
 			for j := range bads[i] {
-				bads[i][j].L += lo
+				bads[i][j].L = i + k*(bads[i][j].L-1) + 1
 			}
-		}(i, lo, hi)
+		}(i, part)
 	}
 	wg.Wait()
 	var bad []badRec
